@@ -35,11 +35,15 @@ class Exploration:
         s.NT = len(s.threads); s.K = cfg.get('K', 0)
         vals.name.defs = []; vals.name.n = 0; vals.SIB.clear()
         opts = dict(cfg.get('opts', {}))
+        if s.NT and not opts.get('lazy'):
+            # default for threaded harnesses ("eager" mode): infeasible branch arms and infeasible value alternatives are removed as
+            # soon as they appear (incremental SAT), so that the merged state never accumulates values no schedule can produce
+            for k_, v_ in dict(feas_br=1, feas_max=200000, prune=1, prune_at=2, prune_budget=900).items(): opts.setdefault(k_, v_)
         vals.MAXALT = int(opts.get('maxalt', 24))
-        s.e = Engine(m, s.NT, concrete=concrete, opts=opts)
+        s.e = Engine(m, s.NT, concrete=concrete, opts=opts); s.opts = opts
         if concrete is None: vals.pruner.reset(s.e.assumes)
         vals.pruner.enabled = concrete is None and bool(opts.get('prune', 1 if s.NT else 0))      # default: on for multi-threaded harnesses
-        vals.pruner.budget = float(opts.get('prune_budget', 60))
+        vals.pruner.budget = float(opts.get('prune_budget', 60)); vals.pruner.at = int(opts.get('prune_at', vals.PRUNE_AT))
         s.e.sequential = (s.NT == 0)
         s.e.ctrlsets = []
         s.scheds = []; s.steps_used = 0; s.hist = []
